@@ -564,6 +564,39 @@ func PruferTree(code []int) *rg.G {
 	return g
 }
 
+// PruferTreeCounted is PruferTree in O(n^2): instead of looking through the
+// rest of the code it keeps, per vertex, the number (an int) of code entries
+// still to come.  Used for long codes; checked against PruferTree at start-up.
+func PruferTreeCounted(code []int) *rg.G {
+	n := len(code) + 2
+	g := rg.New(n)
+	toCome := make([]int, n)
+	for _, c := range code {
+		toCome[c]++
+	}
+	used := make([]bool, n)
+	for _, c := range code {
+		for v := 0; v < n; v++ {
+			if !used[v] && toCome[v] == 0 {
+				g.Add(v, c)
+				used[v] = true
+				break
+			}
+		}
+		toCome[c]--
+	}
+	var rest []int
+	for v := 0; v < n; v++ {
+		if !used[v] {
+			rest = append(rest, v)
+		}
+	}
+	if len(rest) == 2 {
+		g.Add(rest[0], rest[1])
+	}
+	return g
+}
+
 // IsTree reports whether g is connected with n-1 edges (n >= 1).
 func IsTree(g *rg.G) bool {
 	if g.N == 0 || g.M() != g.N-1 {
